@@ -264,21 +264,24 @@ Definition sch_init (zone : nat -> bool) (next : nat -> Z) (max : Z) : sch_state
   {| sch_cks := fun c => sch_init_ck (zone c) (next c); sch_idle := []; sch_pend := []; sch_pcount := 0;
      sch_tasks := []; sch_pc := SchSIdle; sch_clock := 0; sch_max := max |}.
 
-(* ---- observations (what the harness records) ---- *)
+(* ---- observations (what the harness records) ----
+   checkable ids are Z in events (binary: the oracle has to be fast on hundreds of checkables) *)
 Inductive sch_ev :=
-| SchEvStart (c : nat)       (* the check command of c starts executing *)
-| SchEvEnd (c : nat)         (* ... has finished (or thrown) *)
-| SchEvSnap (idle pend : list nat) (quiet : list (nat * bool)).
+| SchEvStart (c : Z)         (* the check command of c starts executing *)
+| SchEvEnd (c : Z)           (* ... has finished (or thrown) *)
+| SchEvSnap (idle pend : list Z) (quiet : list (Z * bool)).
    (* membership of both sets read under m_Mutex; for every listed checkable on which no flag
       change is in flight (handler not owed): is it schedulable (active, unpaused, same zone) *)
 
+Definition sch_zid (c : nat) : Z := Z.of_nat c.
+
 Definition sch_observe (s : sch_state) (a : sch_act) : list sch_ev :=
   match a with
-  | SchATaskTas c => if sch_running (sch_cks s c) then [] else [SchEvStart c]
-  | SchATaskResult c _ => [SchEvEnd c]
+  | SchATaskTas c => if sch_running (sch_cks s c) then [] else [SchEvStart (sch_zid c)]
+  | SchATaskResult c _ => [SchEvEnd (sch_zid c)]
   | SchASnap cs =>
-      [SchEvSnap (map fst (sch_idle s)) (map fst (sch_pend s))
-         (map (fun c => (c, sch_sched (sch_cks s c)))
+      [SchEvSnap (map (fun p => sch_zid (fst p)) (sch_idle s)) (map (fun p => sch_zid (fst p)) (sch_pend s))
+         (map (fun c => (sch_zid c, sch_sched (sch_cks s c)))
               (filter (fun c => Nat.eqb (sch_owed (sch_cks s c)) 0) cs))]
   | _ => []
   end.
@@ -294,13 +297,13 @@ Fixpoint sch_trace (s : sch_state) (l : list sch_act) : list sch_ev :=
    1 = second start while running (single flight), 2 = more than max running, 3 = end without start,
    4 = duplicate in idle, 5 = duplicate in pending, 6 = idle and pending overlap,
    7 = schedulable checkable in neither set (dropped), 8 = unschedulable checkable still in a set *)
-Fixpoint sch_nodupb (l : list nat) : bool :=
-  match l with [] => true | x :: r => negb (existsb (Nat.eqb x) r) && sch_nodupb r end.
-Fixpoint sch_remove1 (c : nat) (l : list nat) : list nat :=
-  match l with [] => [] | x :: r => if Nat.eqb c x then r else x :: sch_remove1 c r end.
-Definition sch_memb (c : nat) (l : list nat) : bool := existsb (Nat.eqb c) l.
+Definition sch_memb (c : Z) (l : list Z) : bool := existsb (Z.eqb c) l.
+Fixpoint sch_nodupb (l : list Z) : bool :=
+  match l with [] => true | x :: r => negb (sch_memb x r) && sch_nodupb r end.
+Fixpoint sch_remove1 (c : Z) (l : list Z) : list Z :=
+  match l with [] => [] | x :: r => if Z.eqb c x then r else x :: sch_remove1 c r end.
 
-Definition sch_snap_code (idle pend : list nat) (quiet : list (nat * bool)) : Z :=
+Definition sch_snap_code (idle pend : list Z) (quiet : list (Z * bool)) : Z :=
   if negb (sch_nodupb idle) then 4
   else if negb (sch_nodupb pend) then 5
   else if existsb (fun c => sch_memb c pend) idle then 6
@@ -308,7 +311,7 @@ Definition sch_snap_code (idle pend : list nat) (quiet : list (nat * bool)) : Z 
   else if existsb (fun q => negb (snd q) && (sch_memb (fst q) idle || sch_memb (fst q) pend)) quiet then 8
   else 0.
 
-Fixpoint sch_oracle_from (max : Z) (running : list nat) (idx : Z) (t : list sch_ev) : option (Z * Z) :=
+Fixpoint sch_oracle_from (max : Z) (running : list Z) (idx : Z) (t : list sch_ev) : option (Z * Z) :=
   match t with
   | [] => None
   | SchEvStart c :: r =>
